@@ -57,7 +57,7 @@ BOUNDS = {
         dispatch=dict(Quants=ALL_Q, Dts=ALL_DT, Lays=ALL_LAY, MaxLen=3, Pairing="full"),      # the full product
         scale=dict(ScaleLens={4099, 65521, 65535, 65536, 65537, 131071, 131072, 131073, 196608, 262144, 1048575, 1048576, 1048577,
                               2097152}),
-        threads=dict(nthreads=8, rounds=12, n=250000),
+        threads=dict(nthreads=8, rounds=8, n=250000),
         nrandom=6000),
 }
 DEFAULTS = dict(OmIdx={1}, CurvIdx={1}, HIdx={1}, HMix=False, ZIdx={1}, ChainLen=3, Quants={"Dc"}, Dts={"f8"}, Lays={"contig"}, MaxLen=1,
@@ -433,7 +433,7 @@ def signature(r, clause):
     if t == "scale":
         n, B = r["n"], r["block"]
         cls = "multiple-of-block" if n % B == 0 else ("below-block" if n < B else "non-multiple")
-        return "%s|%s|%s,%s" % (r["q"], clause, r["form"], cls)
+        return "%s|%s|%s" % (r["q"], clause, cls)
     if t == "threads":
         return "%s|%s|%s" % (r["q"], clause, r["form"])
     if t == "copy":
@@ -659,6 +659,8 @@ def run(ctx):
     selftest(ctx, recs, rejects)
     worst, worst_units = {}, {}
     for r in recs:
+        if r["t"] != "scalar":
+            continue
         for k, v in r.get("info", {}).items():
             if "rel_dev" in v and r["res"][k][0] >= 0:
                 worst[k] = max(worst.get(k, 0.0), v["rel_dev"])
